@@ -331,7 +331,15 @@ func checkMain(args []string) int {
 				}
 				if out.End == "done" && len(out.Failed) > 0 {
 					// the real scheduler hit an interleaving in which an assertion fails: that is a
-					// natively observed violation (the engine may have followed another interleaving)
+					// natively observed violation (the engine may have followed another interleaving) —
+					// provided it fails again when the scenario is run once more in a process of its
+					// own (real time on a loaded machine is not evidence by itself)
+					again, _, _ := nativeReplay(l, p.short, map[string]*ReplayIn{p.name: p.in}, false)
+					if a := again[p.name]; a == nil || a.End != "done" || len(a.Failed) == 0 {
+						fmt.Printf("NOTE: %s: a native witness run failed %v once and passed when repeated alone: not counted (timing)\n", p.in.Harness, out.Failed)
+						validated++
+						continue
+					}
 					validated++
 					violations++
 					os.MkdirAll(replayDir, 0755)
